@@ -38,7 +38,14 @@ POSITIONS = ["top", "fun", "closure", "method", "test", "map_closure", "map_ref"
 def builtin_names(fname):
     """Names of functions/methods of a repository .gdn file whose body is the built-in placeholder."""
     src = open(os.path.join(REPO, "src", fname), encoding="utf-8").read()
-    return set(m.group(1) for m in re.finditer(r"(?:fun|method)\s+(\w+)\s*(?:<[^>]*>)?\([^)]*\)[^{]*\{\s*__BUILT_IN_IMPLEMENTATION", src))
+    out = set()
+    for m in re.finditer(r"(fun|method)\s+(\w+)\s*(?:<[^>]*>)?\(([^)]*)\)[^{]*\{\s*__BUILT_IN_IMPLEMENTATION", src):
+        recv = None
+        if m.group(1) == "method":
+            rm = re.match(r"\s*\w+\s*:\s*(\w+)", m.group(3))
+            recv = rm.group(1) if rm else None
+        out.add((recv, m.group(2)))
+    return out
 
 
 def entry_points(ctx):
@@ -52,7 +59,7 @@ def entry_points(ctx):
             key = f["name"]
         elif f["file"] == "__prelude.gdn" and f["kind"] == "fun" and f["name"] in ("read_line", "shell_arguments"):
             key = f["name"]
-        elif f["file"] == "__prelude.gdn" and f["kind"] == "method" and f["recv_hint"] and f["recv_hint"][1] == "Path" and f["name"] in prelude_builtin:
+        elif f["file"] == "__prelude.gdn" and f["kind"] == "method" and f["recv_hint"] and f["recv_hint"][1] == "Path" and ("Path", f["name"]) in prelude_builtin:
             key = "Path::" + f["name"]
         elif f["file"] == "__reflect.gdn" and f["kind"] == "fun" and f["name"] in ("source_file", "built_in_files"):
             key = f["name"]
@@ -324,21 +331,28 @@ def run(ctx):
             raise Machinery(f"control: detector ineffective: non-sandboxed {k} shows {sorted(ctl_effects.get(k, ()))}, expected '{want}'")
         if f["cls"] == "unclassified" and ctl_effects.get(k):
             f["cls"] = "file" if not any(e.startswith("process") for e in ctl_effects[k]) else "process"     # new function with a visible effect: demanded
-        ctx.outcome(f"control:{k}:" + (",".join(sorted(e.split(" (")[0] for e in ctl_effects.get(k, ()))) or "returns, no visible effect"))
+        ctx.outcome(f"control:{k}:" + (",".join(sorted(set(e.split(" (")[0] for e in ctl_effects.get(k, ())))) or "returns, no visible effect"))
 
     # ---- sandboxed cases
+    only = set(x for x in os.environ.get("GV_C24_ONLY", "").split(",") if x)      # development aid: restrict to some entry points
+    if only:
+        ctx.cap(f"GV_C24_ONLY={sorted(only)}")
+    MODES = [("playground-run", None), ("sandboxed-test", "in-test"), ("sandboxed-test", "outside-tests")]
     cases = []
     for f in eps:
+        if only and f["key"] not in only:
+            continue
         forms = ["qualified", "unqualified"] if f["file"] != "__prelude.gdn" else ["plain"]
-        for labels, srcs, ok in vectors(f, "@ABS@", full):
+        for vi, (labels, srcs, ok) in enumerate(vectors(f, "@ABS@", full)):
             for form in forms:
                 for pos in POSITIONS:
                     if pos == "map_ref" and (f["kind"] == "method" or len(srcs) != 1):
                         continue
-                    cases.append((f, labels, srcs, ok, form, pos, "playground-run", None))
-                    cases.append((f, labels, srcs, ok, form, pos, "sandboxed-test", "in-test"))
-                    if pos != "test" or True:
-                        cases.append((f, labels, srcs, ok, form, pos, "sandboxed-test", "outside-tests"))
+                    for mode, offv in MODES:
+                        if not full and vi > 0 and not (form != "unqualified" and pos in ("top", "fun", "test") and offv != "outside-tests"):
+                            continue      # quick: the full position x form x mode cross for the primary vector only
+                        cases.append((f, labels, srcs, ok, form, pos, mode, offv))
+    ctx.bound("cross", "vectors x forms x positions x modes" if full else "primary vector x forms x positions x modes; other vectors x {top, fun, test} x {playground-run, sandboxed-test in test}")
 
     def do_case(i_case):
         i, (f, labels, srcs, ok, form, pos, mode, offv) = i_case
@@ -391,7 +405,8 @@ def run(ctx):
         elif r["cls"] == "returned":
             n_allowed += 1
         ctx.outcome(f"{f['cls']}:{'well-typed' if ok else 'ill-typed'}:{r['cls']}")
-        for w in whats:
+        if whats:
+            w = "; ".join(sorted(set(whats)))
             fails.setdefault((k, w), {}).setdefault(combo, {"program": r["src"], "args": r["args"], "stdout": r["out"], "stderr": r["err"], "arguments": list(labels), "import_form": form,
                                                              "stdin_fed_after_hold": r["fed"]})
     for (k, w), combos in sorted(fails.items()):
